@@ -790,6 +790,31 @@ CHECKS["C18"]["note"] = TRUST + ("Oracle only: the cloner's copying of types, sh
     "definedness checks are modelled; C13); list.sort by node index is modelled as a filter of the original order; Python set "
     "iteration order is a universally quantified shuffle parameter.")
 
+CHECKS["C08"].update(
+    text="Coq model of ir.save with external data as a try/finally program of OS effects over a path->node file system. The plan "
+         "is a per-run fail-closed translation of the statement sequences of _write_external_data, "
+         "_check_no_existing_shard_files and the sharded branch of _write_external_tensors (C08_plan_is_translated_source, "
+         "C08_sharded_plan_is_translated_source). Proved for every kill point combined with any single fault and any exception "
+         "kind, serial and parallel writer: the destination is its old node or exactly the complete new bytes, and the parallel "
+         "bytes equal the serial image; a failed save leaves the whole directory and tensor validity untouched; a sharded save "
+         "changes no existing path; invalidation only when the tensor's realpath is the destination; after a successful data "
+         "write the destination stays complete whatever happens at the model file (C08_model_file_failure); the "
+         "copy_file_range loop returns only after all bytes were copied and raises on a short source (C08_copy_file_range_*). "
+         "Tied by effect-trace equality and post-state comparison at every fault or kill index inside Coq, including the "
+         "model-file write, and by a scripted-kernel stream for tofile.",
+    note=TRUST + "Modelled, not verified: atomicity of os.replace, power loss. Oracle only: real multi-thread schedules (C09), "
+         "the real-file flavour of whole saves, lossy-close faults. Contracts as hypotheses: mkdtemp returns a fresh name; "
+         "destination is not a directory.",
+    technique="Coq proof over an effect-program model obtained by per-run translation of the save statement sequences, with "
+              "kill/fault points; vm_compute trace + post-state correspondence; scripted copy_file_range stream")
+CHECKS["C04"]["text"] = ("All representation theorems (dtype/shape, numpy values, little-endian packed bytes, tofile under every "
+    "copy schedule, external data at any offset, serialization, nbytes for every size, string tensors for all byte strings) "
+    "proved in Coq for all dtypes/sizes/values over (a) dtype tables, dispatch sets and the nbytes formula re-extracted from "
+    "_enums/_core/serde, (b) the statement-by-statement translation of _type_casting.py (regenerated on every run) proved equal "
+    "to its recursion form for every input and target size, and (c) a hand model of the representations; tied by in-Coq "
+    "evaluation of the model on real numpy()/tobytes()/tofile()/nbytes observations and direct calls of the translated "
+    "functions (strided, 2-D, Fortran-order inputs; every dims case; append-mode destinations; torch views incl. lazy conj).")
+
 
 def main():
     props = [json.loads(l) for l in open(os.path.join(VERIF, "properties.jsonl"))]
